@@ -145,9 +145,19 @@ func (c *Ctx) execInstr(in ssa.Instruction, st *State) {
 	case *ssa.Lookup:
 		c.lookupInstr(x, st)
 	case *ssa.Range:
+		if isString(x.X.Type()) {
+			c.strRange(x, st)
+			return
+		}
 		c.drop("range")
 		c.set(x, c.freshVal(types.Typ[types.Int], "rangeiter"))
 	case *ssa.Next:
+		if x.IsString {
+			if r, ok := x.Iter.(*ssa.Range); ok {
+				c.strNext(x, r, st)
+				return
+			}
+		}
 		c.drop("next")
 		c.curReachFresh(x, st)
 	case *ssa.Select:
@@ -1074,4 +1084,78 @@ func (c *Ctx) scalarElemAddr(t types.Type, arr, idx string) string {
 	fn := quoteSym("eaddr|" + typeKey(t))
 	c.declareFun(fn, []string{"Int", c.idxSort()}, "Int")
 	return sApp(fn, arr, idx)
+}
+
+// ---------------------------------------------------------------- range over a string
+//
+// `for i, r := range s` is an iterator with a hidden byte position, kept in the heap map
+// RP|str under the iterator's identity. Next yields (pos < len(s), pos, rune) and advances
+// the position by the width of the UTF-8 sequence at pos: exactly 1 for an ASCII byte,
+// between 1 and 4 (and never past the end) otherwise. The decoded rune is the byte itself
+// for ASCII and unconstrained otherwise. Contracts name the position `rangepos`.
+
+func (c *Ctx) strRange(x *ssa.Range, st *State) {
+	it := c.newRef("striter")
+	c.allocRefs = append(c.allocRefs, it)
+	intT := types.Typ[types.Int]
+	c.mapWrite(st, "RP|str", []string{it}, intT, &Val{K: VScalar, T: intT, S: c.intConst(big.NewInt(0), intT)})
+	c.set(x, &Val{K: VScalar, T: intT, S: it})
+}
+
+func (c *Ctx) strIterPos(r *ssa.Range, st *State) *Val {
+	it, ok := c.vals[r]
+	if !ok {
+		return nil
+	}
+	return c.mapReadQuiet(st, "RP|str", []string{it.S}, types.Typ[types.Int])
+}
+
+func (c *Ctx) strNext(x *ssa.Next, r *ssa.Range, st *State) {
+	intT := types.Typ[types.Int]
+	s := c.operand(r.X, st)
+	it := c.operand(r, st)
+	pos := c.mapReadQuiet(st, "RP|str", []string{it.S}, intT)
+	ln := sApp(c.strLenFn(), s.S)
+	lt := func(a, b string) string {
+		if c.mode == "int" {
+			return "(< " + a + " " + b + ")"
+		}
+		return "(bvslt " + a + " " + b + ")"
+	}
+	le := func(a, b string) string {
+		if c.mode == "int" {
+			return "(<= " + a + " " + b + ")"
+		}
+		return "(bvsle " + a + " " + b + ")"
+	}
+	zero := c.intConst(big.NewInt(0), intT)
+	// the position is only ever written here: it stays within [0, len]
+	c.assumeHere(sAnd(le(zero, pos.S), le(pos.S, ln)))
+	ok := c.defineBool("strnext_ok", lt(pos.S, ln))
+	np := c.freshVal(intT, "strnext_pos")
+	b := sApp(c.strByteFn(), s.S, pos.S)
+	var ascii, one, four string
+	if c.mode == "int" {
+		ascii = "(< " + b + " 128)"
+		one = "(+ " + pos.S + " 1)"
+		four = "(+ " + pos.S + " 4)"
+	} else {
+		ascii = "(bvult " + b + " #x80)"
+		one = "(bvadd " + pos.S + " " + c.intConst(big.NewInt(1), intT) + ")"
+		four = "(bvadd " + pos.S + " " + c.intConst(big.NewInt(4), intT) + ")"
+	}
+	c.assumeHere(sImp(ok, sAnd(le(one, np.S), le(np.S, four), le(np.S, ln), sImp(ascii, sEq(np.S, one)))))
+	c.assumeHere(sImp(sNot(ok), sEq(np.S, pos.S)))
+	c.mapWrite(st, "RP|str", []string{it.S}, intT, np)
+	res := c.freshVal(x.Type(), "strnext")
+	nv := *res
+	nv.F = append([]*Val{}, res.F...)
+	nv.F[0] = &Val{K: VScalar, T: types.Typ[types.Bool], S: ok}
+	if len(nv.F) > 1 {
+		nv.F[1] = &Val{K: VScalar, T: intT, S: pos.S}
+	}
+	if bits, _, isInt := intInfo(nv.F[len(nv.F)-1].T); len(nv.F) > 2 && c.mode != "int" && isInt && bits == 32 {
+		c.assumeHere(sImp(sAnd(ok, ascii), sEq(nv.F[2].S, "((_ zero_extend 24) "+b+")")))
+	}
+	c.set(x, &nv)
 }
